@@ -120,7 +120,7 @@ def sibling_runs(ctx):
     pyc = samples.dirty_pyc()
     for kind in ("file", "missing", "symlink-out", "symlink-in", "dir", "fifo", "file-mtime0"):
         for check in (False, True):
-            for name in ("mod.cpython-312.pyc", "mod.pyc", "mod.opt-1.pyc"):
+            for name in ("mod.cpython-312.pyc", "mod.pyc", "mod.opt-1.pyc", "mod.cpython-312.opt-1.pyc", "mod.cpython-312.opt-2.pyc"):
                 t = fh.Tree()
                 try:
                     t.mkdir("d/__pycache__")
